@@ -471,22 +471,30 @@ pub fn judge(sc: &Scenario) -> Judgement {
             continue;
         }
         // "the resulting text": what the server analysed must be what the edits produce
-        if let Some(want) = want_texts.get_mut(&o.uri).and_then(|q| q.pop_front()) {
-            if want != o.doc.text {
-                j.violate(
-                    ID,
-                    "resulting-text",
-                    "resulting-text".into(),
-                    format!(
-                        "update #{k} of {}: the document the server analysed is not the text that results from the edits sent so far ({} bytes vs {} bytes; first difference at byte {})",
-                        o.uri,
-                        o.doc.text.len(),
-                        want.len(),
-                        want.bytes().zip(o.doc.text.bytes()).position(|(a, b)| a != b).unwrap_or(want.len().min(o.doc.text.len()))
-                    ),
-                );
-                reported = true;
-                continue;
+        // (per document a subsequence of the resulting texts: a broker may apply queued changes in
+        // one go, but never analyse a text the edits do not produce)
+        if let Some(q) = want_texts.get_mut(&o.uri) {
+            match q.iter().position(|t| *t == o.doc.text) {
+                Some(p) => {
+                    q.drain(..=p);
+                }
+                None => {
+                    let want = q.front().cloned().unwrap_or_default();
+                    j.violate(
+                        ID,
+                        "resulting-text",
+                        "resulting-text".into(),
+                        format!(
+                            "update #{k} of {}: the document the server analysed is not the text that results from the edits sent so far ({} bytes vs {} bytes; first difference at byte {})",
+                            o.uri,
+                            o.doc.text.len(),
+                            want.len(),
+                            want.bytes().zip(o.doc.text.bytes()).position(|(a, b)| a != b).unwrap_or(want.len().min(o.doc.text.len()))
+                        ),
+                    );
+                    reported = true;
+                    continue;
+                }
             }
         }
         if let Some((clause, sig, detail)) = compare(&o.doc, &fresh) {
@@ -518,6 +526,22 @@ pub fn judge(sc: &Scenario) -> Judgement {
                     ));
                     reported = true;
                 }
+            }
+        }
+    }
+    // the last resulting text of every document must have been analysed
+    let clean_end0 = matches!(rec.end, Some(tokio::sim::ProcessEnd::MainReturned(true))) && rec.hang.is_none() && rec.task_panics.is_empty();
+    if !reported && clean_end0 {
+        for (uri, q) in &want_texts {
+            if !q.is_empty() {
+                j.violate(
+                    ID,
+                    "resulting-text",
+                    "resulting-text never-analysed".into(),
+                    format!("the session ended gracefully but the text that results from the last {} edit(s) to {uri} was never analysed by the server", q.len()),
+                );
+                reported = true;
+                break;
             }
         }
     }
